@@ -147,18 +147,73 @@ Proof.
   assert (SAME : Ok (b, st') = Ok (b, st') -> True) by auto.
   destruct o; cbn [step] in E; unfold skip in E; break_hyp E;
     try (inversion E; subst; exact S);
-    try (eapply PUT; [exact E|]; intros c0 w0 Em;
+    try (eapply PUT; [exact E|]; let cc := fresh "cc" in let ww := fresh "ww" in intros cc ww Em;
          try (apply ret_inv in Em; inversion Em; subst; exact Logic.I);
-         apply lift_inv in Em; destruct Em as (a0 & Em & ->); try exact Logic.I).
-  all: try (match goal with G : getv _ _ = Some (CN ?n) |- sent_ok (Some (CN _)) =>
-              first [ eapply (sent_ok_same n); [eapply sent_ok_get; [exact S | exact G] |] | fail ] end).
-  all: try (eapply clear_sent; eauto; fail).
-  all: try (eapply assign_sent; eauto; fail).
-  all: try (eapply ins_args_sent; eauto; fail).
-  all: try (eapply remove_at_sent; eauto; fail).
-  all: try (eapply add_all_sent; eauto; fail).
-  all: try (eapply remove_keys_sent; eauto; fail).
-  all: try (apply with_arg_inv in Em; destruct Em as (i0 & w1 & w2 & Em); eapply remove_key_sent; eauto; fail).
+         let aa := fresh "aa" in apply lift_inv in Em; destruct Em as (aa & Em & ->); try exact Logic.I).
   all: try (cbn [sent_ok]; apply new_sent in Em; destruct Em; congruence).
   all: try (cbn [sent_ok]; apply copy_new_sent in Em; destruct Em; congruence).
+  all: try (match goal with G : getv _ _ = Some (CN ?n) |- sent_ok (Some (CN _)) =>
+              eapply (sent_ok_same n); [eapply sent_ok_get; [exact S | exact G] |];
+              first [ eapply clear_sent; eauto; fail
+                    | eapply assign_sent; eauto; fail
+                    | eapply ins_args_sent; eauto; fail
+                    | eapply remove_at_sent; eauto; fail
+                    | eapply add_all_sent; eauto; fail
+                    | eapply remove_keys_sent; eauto; fail
+                    | let ii := fresh "ii" in let wa := fresh "wa" in let wb := fresh "wb" in
+                      apply with_arg_inv in Em; destruct Em as (ii & wa & wb & Em); eapply remove_key_sent; eauto; fail ]
+            end).
+  all: try (inversion E; subst; unfold SentOk; cbn [svars]; repeat (apply Forall_set_at'; [|try exact Logic.I]); try exact S).
+  all: unfold nc_swap in Heqp; inversion Heqp; subst; cbn [sent_ok csent ckind].
+  - apply (sent_ok_get st x (CN c1) S Heqo).
+  - apply (sent_ok_get st y (CN c2) S Heqo0).
+Qed.
+
+Lemma node_ids_length k n : length (node_ids k n) = fields k.
+Proof. unfold node_ids, fields. destruct (has_key k), (has_val k), (key_first k); reflexivity. Qed.
+Lemma items_ids_length k l : length (items_ids k l) = fields k * length l.
+Proof.
+  unfold items_ids. induction l as [|n r IH]; cbn [flat_map length]; [lia|].
+  rewrite app_length, node_ids_length, IH. lia.
+Qed.
+
+Lemma meq_length (a b : list nat) : meq a b -> length a = length b.
+Proof. intros H. apply Permutation_length. apply meq_perm. exact H. Qed.
+
+Lemma ids_count w vs : Forall sent_ok vs ->
+  length (all_ids vs) = slive (map (option_map (abs_cont w)) vs).
+Proof.
+  unfold all_ids, slive.
+  induction vs as [|v t IH]; intros S; cbn [flat_map map fold_right length]; [reflexivity|].
+  inversion S as [|? ? Sv St]; subst. rewrite app_length, (IH St). f_equal.
+  destruct v as [[a|n]|]; cbn [vids cids option_map abs_cont slive_var length]; auto.
+  - rewrite map_length. change (fields KArray) with 1. change (sent_count KArray) with 0. lia.
+  - cbn [sent_ok] in Sv. unfold nids. rewrite app_length, items_ids_length, map_length, Sv. reflexivity.
+Qed.
+
+Lemma live_count st : Inv st -> SentOk st -> length (heap (sw st)) = slive (abs st).
+Proof.
+  intros IV S.
+  assert (L : length (heap (sw st)) = length (all_ids (svars st))).
+  { rewrite <- (meq_length _ _ (inv_ids _ IV)). unfold dom. rewrite map_length. reflexivity. }
+  rewrite L. apply ids_count. exact S.
+Qed.
+
+Lemma run_sent ops : forall st st', SentOk st -> run st ops = Ok st' -> SentOk st'.
+Proof.
+  induction ops as [|o r IH]; intros st st' S E; cbn [run] in E.
+  - inversion E. subst. exact S.
+  - destruct (step st o) as [[b st1]|e] eqn:E1; [|discriminate].
+    eapply IH; [eapply step_sent; eauto | exact E].
+Qed.
+
+Lemma sent_init nv : SentOk (init nv).
+Proof. unfold SentOk, init. cbn [svars]. apply Forall_forall. intros v I. apply repeat_spec in I. subst. exact Logic.I. Qed.
+
+(* between operations the number of live instances is the spec's function of the contents:
+   one instance per field of every stored item plus those of the embedded end items *)
+Lemma live_count_proof nv ops st : run (init nv) ops = Ok st -> length (heap (sw st)) = slive (abs st).
+Proof.
+  intros E. destruct (run_init_ok nv ops) as (st0 & E0 & IV & _). rewrite E in E0. inversion E0. subst st0.
+  apply live_count; [exact IV | eapply run_sent; [apply sent_init | exact E]].
 Qed.
